@@ -103,6 +103,7 @@ pub(crate) trait PendingRequest: Send {
 }
 
 /// Encapsulates a non-responded transmitting part of an HTTP stream state
+#[async_trait]
 pub(crate) trait PendingRespond: Send {
     /// Get the request ID for logging
     #[allow(dead_code)]
@@ -111,6 +112,12 @@ pub(crate) trait PendingRespond: Send {
     /// Send the intermediate response to a client. Unlike `send_response()`,
     /// it does not change the pending state of the object.
     fn send_intermediate_response(&self, _: ResponseHeaders) -> io::Result<()> {
+        Ok(())
+    }
+
+    /// Wait until the responses sent so far have been taken, so that the next one
+    /// can be sent
+    async fn wait_interim_sent(&mut self) -> io::Result<()> {
         Ok(())
     }
 
